@@ -427,6 +427,9 @@ def get_text_signature(fn: FuncIR, *, bound: bool = False) -> str | None:
     # currently sees 'self' as being positional-or-keyword and '__x' as positional-only.
     pos_only_idx = -1
     for idx, arg in enumerate(sig.args):
+        if arg.name.startswith(("__bitmap", "__mypyc")):
+            # Hidden trailing arguments are positional-only but are not part of the signature
+            continue
         if arg.pos_only and arg.kind in (ArgKind.ARG_POS, ArgKind.ARG_OPT):
             pos_only_idx = idx
     for idx, arg in enumerate(sig.args):
